@@ -24,13 +24,19 @@ pub struct Case {
   /// the evaluated tags are skipped
   #[serde(default)]
   pub punctures: Vec<(u8, u8, u8)>,
+  /// blinding scalars chosen by the caller instead of drawn by `Client::blind`: (kind, k) with
+  /// kind 0: l - k, 1: 2^252 + k, 2: k, 3: 2^(k mod 253), 4: 64 expanded bytes reduced mod l
+  #[serde(default)]
+  pub chosen: Vec<(u8, u64)>,
 }
 
 fn strat(tier: Tier) -> BoxedStrategy<Case> {
   let max = tier.pick(4096, 65536);
   (bytes(max), bytes(200), tag_set(tier.pick(16, 256)), any::<u16>(), any::<u16>(), 1u8..4, 2u8..7, any::<bool>(),
-     proptest::collection::vec((0u8..6, any::<u8>(), prop_oneof![3 => 1u8..8, 1 => 8u8..64, 1 => 64u8..=255]), 0..3))
-    .prop_map(|(input, other_input, mds, md_sel, md_sel2, servers, requests, verifiable, punctures)| Case {
+     proptest::collection::vec((0u8..6, any::<u8>(), prop_oneof![3 => 1u8..8, 1 => 8u8..64, 1 => 64u8..=255]), 0..3),
+     proptest::collection::vec((0u8..5, prop_oneof![3 => 1u64..5, 1 => any::<u64>()]), 0..4))
+    .prop_map(|(input, other_input, mds, md_sel, md_sel2, servers, requests, verifiable, punctures, chosen)| Case {
+      chosen,
       input,
       other_input,
       mds,
@@ -134,6 +140,61 @@ fn oracle(c: &Case, st: &mut Stats) -> Result<(), String> {
       };
       if rs == Scalar::ZERO || rs == Scalar::ONE {
         return Err(format!("degenerate blinding scalar {:?}", rs.to_bytes()));
+      }
+    }
+    // "every blinding": scalars chosen by the caller (extreme values of the scalar field included),
+    // applied to the input point in the harness and handed to unblind through both conversions
+    if let Some(hb) = &h_point {
+      let hp = curve25519_dalek::ristretto::CompressedRistretto(*hb).decompress().ok_or("the unblinded input point does not decode")?;
+      let h = point_from(hb);
+      for (kind, k) in &c.chosen {
+        let r: Scalar = match kind % 5 {
+          0 => -Scalar::from(*k),
+          1 => {
+            let mut b = [0u8; 32];
+            b[31] = 0x10;
+            Scalar::from_bytes_mod_order(b) + Scalar::from(*k)
+          }
+          2 => Scalar::from(*k),
+          3 => {
+            let mut b = [0u8; 32];
+            let bit = (*k % 253) as usize;
+            b[bit / 8] = 1 << (bit % 8);
+            Scalar::from_bytes_mod_order(b)
+          }
+          _ => {
+            let w = expand(*k, 64);
+            let mut b = [0u8; 64];
+            b.copy_from_slice(&w);
+            Scalar::from_bytes_mod_order_wide(&b)
+          }
+        };
+        if r == Scalar::ZERO {
+          continue;
+        }
+        let blinded = point_from(&(r * hp).compress().to_bytes());
+        let ev = server.eval(&blinded, md, c.verifiable).map_err(|e| format!("eval on registered tag {md}: {e}"))?;
+        if c.verifiable && !Client::verify(&server.get_public_key(), &blinded, &ev, md) {
+          return Err(format!("honest verifiable evaluation rejected (tag {md}, caller-chosen blinding)"));
+        }
+        let direct = server.eval(&h, md, false).map_err(|e| e.to_string())?;
+        for (route, cs) in [("scalar", ppoprf::ppoprf::CurveScalar::from(r)), ("bytes", ppoprf::ppoprf::CurveScalar::from(r.to_bytes()))] {
+          st.evals(1);
+          let unblinded = Client::unblind(&ev.output, &cs);
+          if unblinded.as_bytes() != direct.output.as_bytes() {
+            return Err(format!(
+              "with the caller-chosen blinding {} (handed over as {route}) the client's unblinded result differs from the server's evaluation of the unblinded input point (server {si}, tag {md})",
+              hex::encode(r.to_bytes())
+            ));
+          }
+        }
+        st.class(match kind % 5 {
+          0 => "chosen-blinding:l-k",
+          1 => "chosen-blinding:2^252+k",
+          2 => "chosen-blinding:k",
+          3 => "chosen-blinding:2^i",
+          _ => "chosen-blinding:uniform",
+        });
       }
     }
     let fin = fin.unwrap();
@@ -245,7 +306,7 @@ pub fn property() -> Property {
   Property {
     id: "C12",
     level: "exploration",
-    rule: "generated (input bytes incl. empty and up to 4 kB quick / 64 kB thorough, tag sets incl. 0 / 255 / adjacent tags up to 256 tags, 1-3 independently keyed servers, 2-6 repeated requests, verifiable or not). Oracle: unblind(blind(x)) is one point H for all requests; unblind(eval(blind(x), tag)) = eval(H, tag) for every request; finalize is identical across requests, differs across two tags, two inputs, two servers; blinded requests are pairwise different and differ from H; blinding scalars are not 0 or 1. Non-trivial: >= 2 requests for one (server, tag, input) with at least one cross comparison (every case); distinct by (input, tag set, tag, servers, requests, mode).",
+    rule: "generated (input bytes incl. empty and up to 4 kB quick / 64 kB thorough, tag sets incl. 0 / 255 / adjacent tags up to 256 tags, 1-3 independently keyed servers, 2-6 repeated requests, verifiable or not). Oracle: unblind(blind(x)) is one point H for all requests; unblind(eval(blind(x), tag)) = eval(H, tag) for every request; finalize is identical across requests, differs across two tags, two inputs, two servers; blinded requests are pairwise different and differ from H; blinding scalars are not 0 or 1; the same equation for caller-chosen blindings l-k, 2^252+k, k, 2^i and uniform ones, applied to H in the harness and handed to unblind as scalar and as bytes. Non-trivial: >= 2 requests for one (server, tag, input) with at least one cross comparison (every case); distinct by (input, tag set, tag, servers, requests, mode).",
     assumptions: vec!["blinding scalars and server keys come from OsRng; each case samples them", "unlinkability is only sampled through freshness of the blinded points"],
     subs: vec![prop_sub("obliviousness", 3000, 150000, strat, oracle)],
   }
